@@ -13,6 +13,7 @@ THEOREMS = [
     "GoaktVerif.C07.C07_partial",
     "GoaktVerif.C07.C07_escalate_goes_to_parent",
     "GoaktVerif.C07.C07_sibling_restart_count_bumped",
+    "GoaktVerif.C07.C07_retried_restart_loses_parent",
     "GoaktVerif.C07.notify_refines",
     "GoaktVerif.C07.recordFault_cf",
 ]
@@ -21,7 +22,7 @@ ORACLE_NEEDS_JUDGE = True
 TIMEOUT = 900
 MANIFEST = {
     "level_text": "Kernel-checked refinement: for EVERY supervisor option list (strategy, per-type directives, any-error, retry budget/window, backoff), every family size and every script of failures (6 error kinds), pings, reinstatements and aged fault stamps, each step of the model of notifyParent/handlePanicking/handleStop-/handleRestartDirective/recordFault/suspendGroup/restartSubtree produces exactly the outcome the property text prescribes (run_refines_code, step_refines_code), with the configured directive proved equal to the text's lookup (lookup_eq_spec: any-error sole rule, else last rule for the type, else constructor default, else suspend) and the fault counter proved equal to the count of consecutive faults within the window over the fault history (cf_eq_specCount). The text is FALSE of the current code in one clause, proved with a witness replayed on the real code: Escalate delivers the PanicSignal to the parent's own Receive, not the grandparent (C07-F1): C07_refuted, C07_partial (text holds on every step whose configured directive is not Escalate). A second deviation found by this check (restart count of a sibling restarted while running reset to 1) was repaired in /repo by fix 6e40710; the model and the full restart clause now hold (C07_sibling_restart_count_bumped). The model is tied to the code by a differential run on a real actor system (same scripts, equal observations incl. events stream), and the theorem's oracle judgeRun is evaluated on the implementation's observations.",
-    "level_note": "Model scope: one parent with <= 4 leaf children sharing one option list, grandparent as recorder; PreStart/PostStop never fail; no faults during a restart; remote actors, passivation and backoff sleep lengths not modelled. Trusted: harness quiescence detection (conditions, not sleeps); windows restricted to <=0, 1ns, 1h so wall-clock never decides (expiry forced by an in-package `age` accessor); a death-watch/re-add race of the code outside C07 is pinned to its usual order by the test actor's PreStart; go2lean not used (recordFault has an if-with-init and atomics), the tie is the differential.",
+    "level_note": "Model scope: one parent with <= 4 leaf children sharing one option list, grandparent as recorder; PreStart failures inside a restart are modelled and tied (op F, init's 5 tries, the restart retrier, the final shutdown) but lie outside the refinement theorems (validOps excludes F; finding C07-F3 lives there); PostStop never fails; no faults arriving during a restart; remote actors, passivation and backoff sleep lengths not modelled. Trusted: harness quiescence detection (conditions, not sleeps); windows restricted to <=0, 1ns, 1h so wall-clock never decides (expiry forced by an in-package `age` accessor); a death-watch/re-add race of the code outside C07 is pinned to its usual order by the test actor's PreStart; go2lean not used (recordFault has an if-with-init and atomics), the tie is the differential.",
     "technique": "Lean 4 refinement proof (model of the supervision path vs. the property text as an oracle over observations, for all option lists and all op sequences) + differential run of a real actor system against the model",
 }
 TRUSTED = [
@@ -90,6 +91,30 @@ def gen_case(rng, maxlen=6):
     return f"n={n} " + " ".join(opts) + " | " + " ".join(gen_ops(rng, n, opts, maxlen))
 
 
+def gen_fcase(rng):
+    """scripted PreStart failures during a restart (op F<i><k>): only with retry delays that are short —
+    the retrier sleeps WithRetry's timeout between attempts, and 1ns makes the retry library panic"""
+    n = rng.choice([1, 2, 2, 3])
+    opts = ["st:" + rng.choice("1A"), "d:A:2"]
+    if rng.random() < 0.6:
+        opts.append(f"r:{rng.choice([1, 2, 3])}:{rng.choice(['2', '2', '0', '-1'])}")
+    rng.shuffle(opts)
+    ops = []
+    for _ in range(rng.randint(2, 6)):
+        r = rng.random()
+        i = rng.randrange(n)
+        if r < 0.45:
+            ops.append(f"f{i}A")
+        elif r < 0.75:
+            ops.append(f"F{i}{rng.choice([1, 3, 5, 5, 6, 9])}")
+        elif r < 0.9:
+            ops.append(f"p{i}")
+        else:
+            ops.append(f"r{i}")
+    ops.append(f"f{rng.randrange(n)}A")
+    return f"n={n} " + " ".join(opts) + " | " + " ".join(ops)
+
+
 def exhaustive_small():
     """bounded-exhaustive part: 2 children, one rule for kind A, both strategies, budgets and windows,
     every failure sequence of length <= 3 over 2 children (plus a ping)"""
@@ -108,15 +133,17 @@ def gen_cases(rng, tier):
     if tier == "quick":
         ex = exhaustive_small()
         cases = rng.sample(ex, 40)
-        cases += [gen_case(rng) for _ in range(110)]
+        cases += [gen_case(rng) for _ in range(95)]
+        cases += [gen_fcase(rng) for _ in range(20)]
         return cases
     cases = exhaustive_small()
-    cases += [gen_case(rng, 7) for _ in range(3000)]
+    cases += [gen_case(rng, 7) for _ in range(2700)]
+    cases += [gen_fcase(rng) for _ in range(400)]
     return cases
 
 
 def search_cases(rng, tier):
-    return exhaustive_small() + [gen_case(rng, 7) for _ in range(1500)]
+    return exhaustive_small() + [gen_case(rng, 7) for _ in range(1400)] + [gen_fcase(rng) for _ in range(200)]
 
 
 def compare(case, impl, model):
@@ -133,6 +160,8 @@ def is_trivial(case, impl):
 def tag(case, impl):
     cfg = case.split("|")[0]
     st = "all" if "st:A" in cfg else "one"
+    if " F" in case.split("|")[1]:
+        return "prestart-failures"
     bud = "budget" if any(o.startswith("r:") and not o.startswith("r:0") and o.endswith((":H", ":1")) for o in cfg.split()) else "nobudget"
     return f"{st}/{bud}"
 
@@ -150,6 +179,8 @@ def classify(case, impl, why):
         return None
     if why.startswith("bad C07-F1 "):
         return "C07-F1"
+    if why.startswith("bad C07-F3 "):
+        return "C07-F3"
     return None
 
 
